@@ -10,9 +10,16 @@
    `final (init n) ops` is the world after the history `ops` on n initial models (NewModel adds more);
    ops range over constructor calls, create_agents (all argument forms), remove, deregister_agent,
    remove_all_agents, in-place shuffle/sort of model.agents and agents_by_type[c], and do/map/shuffle_do
-   activations whose callbacks remove agents, create agents (for any model) and call remove_all_agents. *)
+   activations whose callbacks remove agents, create agents (for any model) and call remove_all_agents - and,
+   since the deepening, mutation of the model's own all-agents set through the AgentSet API
+   (model.agents.discard/remove(agent), model.agents.select(..., inplace=True)).  Those last ones are NOT registry
+   operations: the code removes from _all_agents only.  Theorems about model.agents being EXACT therefore carry
+   the hypothesis `setapi_free ops = true` (the history has none of them; C02_agents_exact_with_setapi_refuted
+   shows it is needed); everything else - hard references, agents_by_type, agent_types, ids, removal,
+   independence, and model.agents never holding a removed/foreign/duplicate agent - is proved for ALL histories. *)
 From Coq Require Import ZArith List Bool Permutation.
-From Mesa Require Import Common.ListX Generated.Tables Model.Registry Proofs.RegistryProofs Proofs.RegistryMore.
+From Mesa Require Import Common.ListX Generated.Tables Model.Registry Proofs.RegistryProofs Proofs.RegistryMore
+  Proofs.RegistryProjection.
 Import ListNotations.
 Open Scope Z_scope.
 
@@ -40,7 +47,7 @@ Print Assumptions C02_hard_exact.
    was reordered in place. *)
 Theorem C02_agents_exact : forall n ops m ms,
   let w := final (init n) ops in
-  getm (w_models w) m = Some ms ->
+  getm (w_models w) m = Some ms -> setapi_free ops = true ->
   Permutation (m_all ms) (live m (w_born w) (w_removed w)) /\ NoDup (m_all ms) /\
   (m_reord ms = false -> m_all ms = live m (w_born w) (w_removed w)).
 Proof. exact thm_agents_exact. Qed.
@@ -103,7 +110,7 @@ Theorem C02_remove_clears_every_view : forall n ops k a,
   find_agent (w_born w) k = Some a ->
   forall m ms, getm (w_models (agent_remove w k)) m = Some ms ->
     ~ In k (m_hard ms) /\ ~ In k (m_all ms) /\ (forall c l, bt_get c (m_bt ms) = Some l -> ~ In k l).
-Proof. intros n ops k a w. exact (thm_remove_clears w k a (reachable_inv n ops)). Qed.
+Proof. intros n ops k a w. exact (thm_remove_clears false w k a (reachable_inv_weak n ops)). Qed.
 Print Assumptions C02_remove_clears_every_view.
 
 (* coexisting models: an operation aimed at another model (or at an agent of another model) leaves this
@@ -113,14 +120,14 @@ Theorem C02_models_independent : forall n ops o j msj,
   let w := final (init n) ops in
   is_activate o = false -> op_target w o <> Some j ->
   getm (w_models w) j = Some msj -> getm (w_models (fst (step w o))) j = Some msj.
-Proof. intros n ops o j msj w. exact (thm_frame_simple w o j msj (reachable_inv n ops)). Qed.
+Proof. intros n ops o j msj w. exact (thm_frame_simple false w o j msj (reachable_inv_weak n ops)). Qed.
 Print Assumptions C02_models_independent.
 
 (* creation order: in a history without in-place shuffle/sort, model.agents and every agents_by_type set list
    the live agents in creation order *)
 Theorem C02_creation_order : forall n ops m ms,
   let w := final (init n) ops in
-  forallb (fun o => negb (is_reorder o)) ops = true ->
+  setapi_free ops = true -> forallb (fun o => negb (is_reorder o)) ops = true ->
   getm (w_models w) m = Some ms ->
   m_all ms = live m (w_born w) (w_removed w) /\
   forall c l, bt_get c (m_bt ms) = Some l -> l = live_cls m c (w_born w) (w_removed w).
@@ -142,8 +149,59 @@ Theorem C02_models_independent_activation : forall n ops m c shuf s j,
   let w := final (init n) ops in
   (forall k, act_safe w j k (script_get k s)) ->
   getm (w_models (fst (step w (Activate m c shuf s)))) j = getm (w_models w) j.
-Proof. intros n ops m c shuf s j w. exact (thm_frame_activation w m c shuf s j (reachable_inv n ops)). Qed.
+Proof. intros n ops m c shuf s j w. exact (thm_frame_activation false w m c shuf s j (reachable_inv_weak n ops)). Qed.
 Print Assumptions C02_models_independent_activation.
+
+(* ---------- AgentSet-API mutation of model.agents (not a registry operation) ---------- *)
+(* what the code guarantees whatever is done to model.agents through discard/remove/select(inplace=True),
+   interleaved with anything else: model.agents never holds an agent twice, never a removed one, never one of
+   another model *)
+Theorem C02_agents_sound_any_history : forall n ops m ms,
+  let w := final (init n) ops in
+  getm (w_models w) m = Some ms ->
+  NoDup (m_all ms) /\ incl (m_all ms) (live m (w_born w) (w_removed w)).
+Proof. exact thm_agents_sound. Qed.
+Print Assumptions C02_agents_sound_any_history.
+
+(* ... but it is no longer exact: the full statement `forall ops, Permutation (m_all ms) (live ...)` is refuted by
+   create; model.agents.discard(agent): the agent is live, hard-referenced, in agents_by_type, and not in
+   model.agents *)
+Theorem C02_agents_exact_with_setapi_refuted :
+  exists ops ms, let w := final (init 1) ops in
+    getm (w_models w) 0 = Some ms /\ live 0 (w_born w) (w_removed w) = [0] /\ m_hard ms = [0] /\
+    bt_get 0 (m_bt ms) = Some [0] /\ m_all ms = [].
+Proof. exact setapi_refutes_exactness. Qed.
+Print Assumptions C02_agents_exact_with_setapi_refuted.
+
+(* ---------- coexisting models: the projection theorem ---------- *)
+(* For every interleaved history over any number of models (from ANY state w): the final state of model m -
+   hard references, model.agents, agents_by_type, id counter - is what m's own events alone make of m's
+   initial state.  `trace w ops` is the sequence of atomic registry events of the history (constructor calls,
+   deregistrations - also those made by callbacks inside activations and by remove_all_agents -, in-place
+   reorders, AgentSet-API mutations), each addressed to one model; `mstep` runs one event on one model. *)
+Theorem C02_models_independent_projection : forall ops w m ms,
+  getm (w_models w) m = Some ms ->
+  getm (w_models (final w ops)) m = Some (fold_left mstep (evs_for m (trace w ops)) ms).
+Proof. exact projection. Qed.
+Print Assumptions C02_models_independent_projection.
+
+(* a model constructed in the middle of a history evolves from the fresh state by its own events alone *)
+Theorem C02_projection_new_model : forall pre post w,
+  let w1 := final w pre in
+  let m := zlen (w_models w1) in
+  getm (w_models (final w (pre ++ NewModel :: post))) m =
+  Some (fold_left mstep (evs_for m (trace (fst (step w1 NewModel)) post)) fresh_model).
+Proof. exact projection_new_model. Qed.
+Print Assumptions C02_projection_new_model.
+
+(* id sequences never influence each other: a model's counter advances by exactly the number of constructor
+   calls addressed to it *)
+Theorem C02_id_counter_projection : forall ops w m ms,
+  getm (w_models w) m = Some ms ->
+  exists ms', getm (w_models (final w ops)) m = Some ms' /\
+              m_next ms' = m_next ms + zlen (filter is_create (evs_for m (trace w ops))).
+Proof. exact id_counter_projection. Qed.
+Print Assumptions C02_id_counter_projection.
 
 (* T1: the statement order and constants the model hard-codes are the ones re-read from the source on this run *)
 Theorem C02_source_first_id : gen_agent_first_id = FIRST_ID.
@@ -185,3 +243,13 @@ Proof.
     destruct Ha as [<-|[<-|[<-|[]]]]; simpl in *; congruence.
   - destruct (k =? 2); simpl; [discriminate|exact I].
 Qed.
+
+(* the projection on the example history: model 1 sees exactly its three events, among them the constructor call
+   made by a callback of model 0's activation *)
+Example C02_example_projection :
+  evs_for 1 (trace (init 2) ex_ops) = [EvCreate 4 0; EvCreate 6 3; EvReorderType 0 [4]] /\
+  evs_for 0 (trace (init 2) ex_ops) =
+    [EvCreate 0 0; EvCreate 1 2; EvCreate 2 2; EvCreate 3 2; EvCreate 5 1; EvRemove 1 2; EvRemove 3 2;
+     EvRemove 1 2; EvRemove 1 2] /\
+  setapi_free ex_ops = true.
+Proof. vm_compute. repeat split; reflexivity. Qed.
